@@ -5,6 +5,9 @@ Require Pearl.Generated.Facts.
 Require Pearl.Conc.SyncAcct Pearl.Conc.SyncAcctProofs.
 Module SA := Pearl.Conc.SyncAcct.
 Module SAP := Pearl.Conc.SyncAcctProofs.
+Require Pearl.Conc.SyncHint Pearl.Conc.SyncHintProofs.
+Module SH := Pearl.Conc.SyncHint.
+Module SHP := Pearl.Conc.SyncHintProofs.
 (* EVERY history of the storage model (all operations, restarts, drops, background requests, dumps at
    quiescence points) produces a file-operation trace that the three predicates accept: appends land at
    the end of their blob, a blob's header is synced before any record goes into it, and an index file is
@@ -124,6 +127,47 @@ Example C12_accounting_example : SA.fresh SAP.ex_ths /\
   (SA.g_size (fst (SA.run SA.PNew (SA.init 100 SAP.ex_ths) SAP.ex_sched)) = 123%N).
 Proof. vm_compute. repeat split; reflexivity. Qed.
 
+(* ---- "whenever the un-synced bytes exceed the limit a sync is performed without further client action"
+   (Conc/SyncHint.v): any number of client writes of any lengths, the maintenance worker and the background sync task,
+   every interleaving of their atomic steps. A terminal state is one in which nobody has anything left to do. ---- *)
+Theorem C12_no_stuck_dirty_bytes : forall (L b : N) (ws : list SH.wthread) (sched : list SH.actor),
+  SH.fresh ws ->
+  let '(g, ws') := SH.run SH.PNew L (SH.init b ws) sched in
+  SH.terminal (g, ws') = true -> (SH.g_size g - SH.g_synced g <= L)%N.
+Proof. exact SHP.no_stuck_dirty_bytes. Qed.
+(* ... and a terminal state is always reached: every state-changing step decreases a measure (no livelock of the
+   look-again loop, the worker's wait for the old task always ends), a non-terminal state always has an enabled actor,
+   and every prefix of a run can be completed to a terminal state, where the bytes are within the limit *)
+Theorem C12_sync_protocol_progress : forall (L : N) (g : SH.glob) (ws : list SH.wthread),
+  SH.terminal (g, ws) = false -> exists a : SH.actor, SH.step SH.PNew L (g, ws) a <> (g, ws).
+Proof. exact SHP.progress_any. Qed.
+Theorem C12_sync_protocol_terminates : forall (L : N) (st : SH.glob * list SH.wthread) (a : SH.actor),
+  SH.step SH.PNew L st a <> st -> (SHP.mu L (SH.step SH.PNew L st a) < SHP.mu L st)%nat.
+Proof. exact SHP.step_decreases. Qed.
+Theorem C12_eventually_synced : forall (L b : N) (ws : list SH.wthread) (pre : list SH.actor),
+  SH.fresh ws ->
+  exists post : list SH.actor,
+    let '(g, ws') := SH.run SH.PNew L (SH.init b ws) (pre ++ post) in
+    SH.terminal (g, ws') = true /\ (SH.g_size g - SH.g_synced g <= L)%N.
+Proof. exact SHP.eventually_synced. Qed.
+(* the protocol before the repair 590f0ec: a write that crosses the limit while the flag is up is never synced
+   (finding F13; replayed on the crate by regress/C12/f13_*.txt) *)
+Theorem C12_old_sync_protocol_refuted : exists (L b : N) (ws : list SH.wthread) (sched : list SH.actor),
+  SH.fresh ws /\ (let '(g, ws') := SH.run SH.POld L (SH.init b ws) sched in
+    SH.terminal (g, ws') = true /\ (L < SH.g_size g - SH.g_synced g)%N).
+Proof. exact SHP.old_protocol_refuted. Qed.
+(* the look-again loop alone is not enough: with the old worker gate (a request is dropped while a task exists that has
+   not returned yet) the request of a write that saw the flag down can still be lost *)
+Theorem C12_new_loop_old_gate_refuted : exists (L b : N) (ws : list SH.wthread) (sched : list SH.actor),
+  SH.fresh ws /\ (let '(g, ws') := SH.run SH.PNewLoopOldGate L (SH.init b ws) sched in
+    SH.terminal (g, ws') = true /\ (L < SH.g_size g - SH.g_synced g)%N).
+Proof. exact SHP.new_loop_old_gate_refuted. Qed.
+(* the premise is met on the way: a run of three writes, limit 10, that is over the limit midway and ends within it *)
+Example C12_sync_protocol_example : SH.fresh SHP.ex_ws /\
+  (let '(g, ws') := SH.run SH.PNew 10 (SH.init 0 SHP.ex_ws) SHP.ex_sched in
+    SH.terminal (g, ws') = true /\ SH.g_size g = 38%N /\ SH.g_synced g = 35%N /\ (SH.g_size g - SH.g_synced g <= 10)%N /\ (0 < SH.g_synced g)%N).
+Proof. exact SHP.new_protocol_run. Qed.
+
 (* ---- structural facts re-extracted from the Rust source on every run (tools/extract_src.py, Generated/Facts.v):
    the orderings inside the code that the models used above assume. A change of the code that invalidates one turns
    the generated boolean into `false` and this file no longer compiles. ---- *)
@@ -143,8 +187,27 @@ Proof. reflexivity. Qed.
 (* a failed sync does not switch the threshold syncs off *)
 Theorem C12_source_fsync_flag_is_a_guard : Pearl.Generated.Facts.FSYNC_FLAG_IS_A_GUARD = true.
 Proof. reflexivity. Qed.
+(* the shape of the sync-hint protocol that Conc/SyncHint.v models: the background sync looks again after lowering its
+   flag (steps T4, T5), every access to the flag is SeqCst, the worker drops a request only while a task exists AND the
+   flag is up *)
+Theorem C12_source_background_sync_looks_again : Pearl.Generated.Facts.BACKGROUND_SYNC_LOOKS_AGAIN = true.
+Proof. reflexivity. Qed.
+Theorem C12_source_fsync_flag_is_seqcst : Pearl.Generated.Facts.FSYNC_FLAG_IS_SEQCST = true.
+Proof. reflexivity. Qed.
+Theorem C12_source_worker_replaces_task_past_its_last_look : Pearl.Generated.Facts.WORKER_REPLACES_TASK_PAST_ITS_LAST_LOOK = true.
+Proof. reflexivity. Qed.
 
 Print Assumptions C12_every_history_trace_accepted.
+Print Assumptions C12_no_stuck_dirty_bytes.
+Print Assumptions C12_sync_protocol_progress.
+Print Assumptions C12_sync_protocol_terminates.
+Print Assumptions C12_eventually_synced.
+Print Assumptions C12_old_sync_protocol_refuted.
+Print Assumptions C12_new_loop_old_gate_refuted.
+Print Assumptions C12_sync_protocol_example.
+Print Assumptions C12_source_background_sync_looks_again.
+Print Assumptions C12_source_fsync_flag_is_seqcst.
+Print Assumptions C12_source_worker_replaces_task_past_its_last_look.
 Print Assumptions C12_synced_never_exceeds_durable.
 Print Assumptions C12_dirty_bytes_overapproximate.
 Print Assumptions C12_old_accounting_refuted.
